@@ -19,9 +19,17 @@ import (
 type c02Field struct {
 	ID string `json:"id"` // claim name in the introspection response
 	// Mode: "str" = {"type":"string"} filter; "any" = no filter (value may be an object); "pat" = pattern with a capture group
+	// "arr" = no filter, the credential carries an array.
 	Mode  string `json:"mode"`
 	Value string `json:"value"` // the value the honest holder's credential carries for this field
+	// Optional: the constraint field has "optional": true. Only then may the honest credential lack the value:
+	// Cred "" = carries the value, "absent" = lacks the member, "null" = carries JSON null. (vcr/pe then maps the id to nil.)
+	Optional bool   `json:"optional,omitempty"`
+	Cred     string `json:"cred,omitempty"`
 }
+
+// valueless: the honest credential has no value for this (optional) field, so no claim value is established at issuance
+func (f c02Field) valueless() bool { return f.Optional && (f.Cred == "absent" || f.Cred == "null") }
 
 type c02Desc struct {
 	ID     string     `json:"id"`
@@ -35,9 +43,12 @@ type c02PD struct {
 }
 
 type c02Scope struct {
-	Name string `json:"name"`
-	Org  *c02PD `json:"org,omitempty"`
-	User *c02PD `json:"user,omitempty"`
+	// Name is the policy key: the complete scope STRING the definitions are configured for. A key may contain a space
+	// (Combo): the local policy backend maps whole strings, it does not split them.
+	Name  string `json:"name"`
+	Combo bool   `json:"combo,omitempty"`
+	Org   *c02PD `json:"org,omitempty"`
+	User  *c02PD `json:"user,omitempty"`
 }
 
 // attribute name in the credential that carries the value of field f of descriptor d
@@ -50,6 +61,8 @@ func (f c02Field) credValue() any {
 		return map[string]any{"jkt": f.Value}
 	case "pat":
 		return "lvl-" + f.Value + "-end"
+	case "arr":
+		return []any{f.Value, "second"}
 	}
 	return f.Value
 }
@@ -59,6 +72,8 @@ func (f c02Field) claimValue() any {
 	switch f.Mode {
 	case "any":
 		return map[string]any{"jkt": f.Value}
+	case "arr":
+		return []any{f.Value, "second"}
 	}
 	return f.Value
 }
@@ -77,6 +92,9 @@ func c02RenderPD(pd c02PD) map[string]any {
 			fm := map[string]any{
 				"id":   f.ID,
 				"path": []string{"$.credentialSubject." + a, "$.credentialSubject[0]." + a},
+			}
+			if f.Optional {
+				fm["optional"] = true
 			}
 			switch f.Mode {
 			case "str":
@@ -175,7 +193,7 @@ var c02S2SDefects = map[string][]string{
 	"validity":   {"validity_long", "validity_no_exp", "validity_stale"},
 	"nonce":      {"nonce_missing", "nonce_reused"},
 	"subject":    {"signer_not_subject", "foreign_cred_in_vp", "mixed_subjects", "mixed_subjects_via_empty_vp"},
-	"definition": {"foreign_definition", "unfulfilled", "forged_map", "scope_unknown", "scope_other"},
+	"definition": {"foreign_definition", "unfulfilled", "forged_map", "scope_unknown", "scope_other", "scope_near_miss", "scope_near_miss"},
 	"verify":     {"bad_vp_sig", "bad_vc_sig", "cred_revoked", "cred_expired"},
 	"params":     {"param_missing", "garbage"},
 }
@@ -184,7 +202,7 @@ var c02CodeDefects = map[string][]string{
 	"aud":        {"aud_wrong", "aud_absent", "aud_near_miss", "aud_near_miss", "aud_equivalent", "aud_array_contains"},
 	"nonce":      {"nonce_missing", "nonce_foreign"},
 	"subject":    {"signer_not_subject", "foreign_cred_in_vp", "mixed_subjects", "mixed_subjects_via_empty_vp"},
-	"definition": {"foreign_definition", "unfulfilled", "forged_map"},
+	"definition": {"foreign_definition", "unfulfilled", "forged_map", "scope_unknown", "scope_near_miss", "scope_near_miss"},
 	"verify":     {"bad_vp_sig", "bad_vc_sig", "cred_revoked", "cred_expired"},
 	"token":      {"code_wrong", "code_reused", "token_client_id_wrong", "verifier_wrong", "verifier_missing", "state_wrong", "code_path_variant", "code_instead_of_presentation"},
 }
@@ -228,13 +246,26 @@ func c02GenPD(t *rapid.T, id string, kindPrefix string, descIDs *[]string, usedI
 			}
 			usedIDs[fid] = true
 			mode := "str"
-			switch rapid.IntRange(0, 5).Draw(t, label+"_mode") {
+			switch rapid.IntRange(0, 6).Draw(t, label+"_mode") {
 			case 0:
 				mode = "any"
 			case 1:
 				mode = "pat"
+			case 2:
+				mode = "arr"
 			}
-			d.Fields = append(d.Fields, c02Field{ID: fid, Mode: mode, Value: rapid.SampledFrom(c02Values).Draw(t, label+"_val")})
+			f := c02Field{ID: fid, Mode: mode, Value: rapid.SampledFrom(c02Values).Draw(t, label+"_val")}
+			// optional fields: the holder decides whether the credential has a value for them. More of them where the id
+			// collides with a member of the introspection response (a null claim must not blank the member either).
+			optOdds := 3
+			if pick <= 3 {
+				optOdds = 1
+			}
+			if rapid.IntRange(0, optOdds).Draw(t, label+"_optional") == 0 {
+				f.Optional = true
+				f.Cred = rapid.SampledFrom([]string{"absent", "null", "", ""}).Draw(t, label+"_cred")
+			}
+			d.Fields = append(d.Fields, f)
 		}
 		pd.Descs = append(pd.Descs, d)
 	}
@@ -272,7 +303,18 @@ func c02Gen(t *rapid.T) c02Case {
 		}
 		c.Policy = append(c.Policy, s)
 	}
-	c.Scope = rapid.IntRange(0, ns-1).Draw(t, "scope")
+	c.Scope = rapid.IntRange(0, ns-1).Draw(t, "scope") // (a Combo key is never the honestly requested scope)
+	if rapid.IntRange(0, 2).Draw(t, "combo") == 0 {
+		// a policy key that is one string with a space in it and starts with the name of another configured scope
+		second := "extra"
+		if ns > 1 && rapid.Bool().Draw(t, "combo_second") {
+			second = c.Policy[(c.Scope+1)%ns].Name
+		}
+		used := map[string]bool{}
+		descIDs := []string{"c1", "c2"}
+		c.Policy = append(c.Policy, c02Scope{Name: c.Policy[c.Scope].Name + " " + second, Combo: true,
+			Org: c02GenPD(t, "pd_combo_org", "k_combo_org", &descIDs, used, false, "combo")})
+	}
 	c.VPFmt = rapid.SampledFrom([]string{"jwt_vp", "jwt_vp", "ldp_vp"}).Draw(t, "vpfmt")
 	c.VCFmt = rapid.SampledFrom([]string{"jwt_vc", "jwt_vc", "ldp_vc", "mixed"}).Draw(t, "vcfmt")
 	c.Layout = rapid.SampledFrom([]string{"wallet", "wallet", "single", "extra_cred", "two_last", "two_first", "two_empty"}).Draw(t, "layout")
